@@ -65,17 +65,6 @@ theorem C05_examples :
 
 /-! ## The first fragment as a theorem: the paragraph of ordinary text -/
 
-theorem atPlain_of_chars (inp : Array Char) : ∀ (l : List Char) (p : Nat),
-    (∀ i (h : i < l.length), inp[p + i]? = some l[i]) → inp[p + l.length]? = some '\n' →
-    (∀ c ∈ l, isPlain c = true) → AtPlain inp p l
-  | [], p, _, hn, _ => by simpa [AtPlain] using hn
-  | c :: r, p, hc, hn, hp => by
-      refine ⟨by have := hc 0 (by simp); simpa [List.getElem_cons_zero] using this, hp c (by simp), ?_⟩
-      refine atPlain_of_chars inp r (p + 1) (fun i h => ?_) ?_ (fun d hd => hp d (by simp [hd]))
-      · have := hc (i + 1) (by simpa using h)
-        simpa [Nat.add_assoc, Nat.add_comm 1] using this
-      · simpa [Nat.add_assoc, Nat.add_comm 1] using hn
-
 /-- **Unparsing a paragraph of ordinary text writes exactly that text on a line of its own.**
 For a `p` element carrying at most an eId, whose only child is a text made of characters that are not
 marker characters, starting with something that is neither white space nor an uppercase letter, outside
